@@ -14,9 +14,12 @@ Search (the property's clauses stated directly on the real code):
   np.linalg.cond(Model.interpolation_matrix()) < 1e4; for both generators: count, exact bounds and
   length <= delta*(1+1e-12) over all active-set patterns.
 """
-import numpy as np
-import core
-from core import fbits_raw
+import os
+for _v in ("OMP_NUM_THREADS", "OPENBLAS_NUM_THREADS", "MKL_NUM_THREADS"):   # tiny matrices: BLAS threads only cost time
+    os.environ.setdefault(_v, "1")
+import numpy as np  # noqa: E402
+import core  # noqa: E402
+from core import fbits_raw  # noqa: E402
 
 MODULE = "DfolsVerif.Properties.C14"
 BUILD_TARGETS = ["DfolsVerif.Driver.InitDirsDrv"]   # what lean/InitDirsMain.lean imports
@@ -321,7 +324,7 @@ def correspondence(ctx):
     lines, want, meta = [], [], []
 
     # (a) coordinate initialisation
-    ncase = ctx.scale(500, 6000)
+    ncase = ctx.scale(1500, 8000)
     tagcount, skipped, swaps, bigk = {}, 0, 0, 0
     for i in range(ncase):
         rng = np.random.default_rng([ctx.seed, 1401, i])
@@ -352,7 +355,7 @@ def correspondence(ctx):
     ninit = len(lines)
 
     # (b) generators
-    ngen = ctx.scale(700, 8000)
+    ngen = ctx.scale(2100, 12000)
     kinds = {"gscale": 0, "rdirs": 0, "odirs": 0}
     for i in range(ngen):
         rng = np.random.default_rng([ctx.seed, 1402, i])
@@ -543,7 +546,7 @@ def search(ctx):
         ctx.fail(sig, what, replay)
 
     # coordinate initialisation on the real solver
-    ncase = ctx.scale(500, 8000) * boost
+    ncase = ctx.scale(1500, 10000) * boost
     status = {}
     worst_cond = 0.0
     for i in range(ncase):
@@ -569,7 +572,7 @@ def search(ctx):
                            "returned": D.tolist()})
 
     # generators, all active-set patterns
-    ngen = ctx.scale(3000, 40000) * boost
+    ngen = ctx.scale(9000, 60000) * boost
     pats = set()
     for i in range(ngen):
         rng = np.random.default_rng([ctx.seed, 1412, boost, i])
